@@ -7,8 +7,13 @@ _NONTRIVIAL = ("ok eq-contracted", "ok differs-sound", "ok eq-decided", "ok eq",
                "ok sampled-members-kept", "ok sampled-outside", "ok sampled-removed")
 
 
+# set pavings (h_set): a line is non-trivial when some YES / NO leaf was really examined (cells of an exact expression or
+# exact sample points inside the leaf), a separator contracted, a predicate decided
+_NONTRIVIAL_SET = ("ok exact-decided", "ok sampled-decided", "ok sepx-contracted", "ok cpdc-decided")
+
+
 def _nontrivial(line, verdict):
-    return " ".join(verdict.split(" ")[:2]) in _NONTRIVIAL
+    return " ".join(verdict.split(" ")[:2]) in _NONTRIVIAL or verdict.startswith(_NONTRIVIAL_SET)
 
 
 def _workloads(tier, seed):
@@ -24,12 +29,23 @@ def _workloads(tier, seed):
         ("quantsmall", "quantsmall", 300),                         # parameter box narrower than the precision / degenerate
         ("cst", "cst", 2000), ("csep", "csep", 2000),              # constraint-based leaves, contract on sampled points
     ]
-    return [{"harness": "h_comb", "tag": tag, "args": [wl, seed, n * k] + full} for tag, wl, n in w]
+    res = [{"harness": "h_comb", "tag": tag, "args": [wl, seed, n * k] + full} for tag, wl, n in w]
+    # set pavings (last sentence of the property): real ibex::Set / ibex::SetInterval, leaves walked with a SetVisitor
+    ks = 1 if q else 10
+    ws = [
+        ("pav", "pav", 300), ("pavg", "pavg", 110),               # exact leaves (lattice / general doubles): verified cell checker
+        ("pavc", "pavc", 250),                                     # + polynomial constraints: refutation by exact points
+        ("sepx", "sepx", 600), ("sepxg", "sepxg", 120),            # Sep::separate on trees with SepBoundaryCtc leaves
+        ("cpdc", "cpdc", 800),                                     # PdcFwdBwd / PdcAnd / PdcOr / PdcNot (fixed-arity constructors)
+        ("cinv", "cinv", 300),                                     # repeated calls of one CtcInverse (INACTIVE sub-contractor)
+    ]
+    res += [{"harness": "h_set", "tag": tag, "args": [wl, seed, n * ks] + full} for tag, wl, n in ws]
+    return res
 
 
 ENTRY = {
-    "modules": ["IbexProofs.Props.C19"],
-    "harnesses": ["h_comb"],
+    "modules": ["IbexProofs.Props.C19", "IbexProofs.Props.C19set"],
+    "harnesses": ["h_comb", "h_set"],
     "workloads": _workloads,
     "nontrivial": _nontrivial,
     "rule": "random combinator trees (depth <= 3 quick, <= 5 thorough; dimension 1-3; CtcCompo/Union/FixPoint/QInter/Integer/"
@@ -38,7 +54,17 @@ ENTRY = {
             "degenerate and unbounded boxes) and on general doubles; 1-3 successive calls on the same object; plus trees over "
             "constraint-based leaves (CtcFwdBwd, CtcNotIn, CtcInverse, SepFwdBwd, SepInverse, CtcExist at the root). "
             "A line is non-trivial when some call returns a non-empty box different from its input (or a decided predicate / "
-            "a sampled point outside the result); distinct = distinct lines",
+            "a sampled point outside the result); distinct = distinct lines. "
+            "SET PAVINGS (h_set): programs of 1-7 steps on the real ibex::Set / ibex::SetInterval in dimension 1-3 (constructors from "
+            "a dimension / a box and a status / a Function, NumConstraint or System with eps; Sep::contract(Set, eps) and "
+            "Sep::contract(SetInterval, eps, status1, status2) with separator trees SepOfBoxes / SepCtcPair / SepInter / SepUnion / "
+            "SepNot / SepQInter / SepBoundaryCtc / SepFwdBwd / SepInverse; &=, |=, save + load, repeated operations on the same "
+            "object); the leaves are walked with a SetVisitor and every leaf (box, YES / NO / MAYBE) is printed, with is_empty, "
+            "is_superset on 1-4 boxes and Set::dist (in a child process). The driver interprets the program as a thick-set "
+            "expression [lo, hi] and runs the verified checker pavingOk (exact leaves: every cell of every YES / NO leaf, cover of "
+            "the space) or the exact point rule leafRefuted (polynomial constraints: corners, midpoints, 40 sample points); "
+            "i-sets whose information is contradictory carry no claim. A paving line is non-trivial when a YES / NO leaf with "
+            "a full-dimensional cell (or an exact sample point inside) was examined",
     "assumptions": [
         "correspondence is sampled: on every generated (tree, leaves, box) the implementation's result is compared with the model "
         "evaluator (equal => the theorems apply); results equal to the model on small grids and ALL results different from the model "
@@ -46,22 +72,45 @@ ENTRY = {
         "constraint-based leaves (CtcFwdBwd/HC4Revise, CtcNotIn, CtcInverse, SepFwdBwd, SepInverse): only the contract is checked, on "
         "sampled points of the input box lying outside the result, membership decided exactly in rational arithmetic",
         "the C++ synthetic leaves CtcUnionOfBoxes / SepOfBoxes / PdcOfBoxes (harness/h_comb.cpp) implement ctcU / sepLeafF / pdcLeafF",
-        "SepBoundaryCtc, Set / SetInterval pavings, CtcPropag, matrix-valued CtcNotIn are not covered",
+        "CtcPropag, matrix-valued CtcNotIn (not_implemented) are not covered",
+        "set pavings: the translation of a program of Set operations into a thick-set expression (Driver/OpsSet.lean: stepSE, sepSE, "
+        "statusImage) is the specification of what each operation names (Set::&= intersection, |= union, Sep::contract "
+        "intersection with the separator's set, SetInterval contraction = information of both); boundary convention: leaves are "
+        "closed boxes, labels are claims up to the boundary (YES leaf inside hi and limit of points of lo, NO leaf disjoint from lo "
+        "and limit of points outside hi); flat YES / NO leaves (none met) carry only the pointwise claim",
+        "constraint-based pavings are only refuted at exact points (no proof of a label); i-sets over polynomial constraints: the "
+        "successive informations are consistent by construction of the generator (all true for one hidden set), checked at the sample points",
+        "pavings needing more than 4e6 cell x box tests, or more than 2600 leaves, are reported / skipped as not examined; the refinement "
+        "only terminates when the undetermined region is bounded: programs start from bounded boxes (or exact separators in dimension 1)",
+        "Set::dist is compared with the exact distance to the printed leaves (relative tolerance 1e-9), not with the denoted set",
     ],
-    "trusted": ["exact cell oracle Driver/CombOracle.lean (decides the property on outputs that differ from the model; not proved)",
+    "trusted": ["exact cell oracle Driver/CombOracle.lean (decides the property on outputs that differ from the model; not proved; "
+                "the set-paving checker IbexModel/SetPaving.lean has its own PROVED cell enumeration)",
                 "printing of boxes as hex bit patterns is injective"],
     "technique": "Lean 4 proofs (contract CtcOK/SepOK/PdcOK preserved by every combinator for arbitrary sub-contractors; induction over "
                  "trees, lists, fuel; stack invariants of CtcExist/CtcForAll) + differential correspondence impl = model on synthetic "
-                 "exact leaves + exact cell oracle + exact point-membership checks for constraint-based leaves",
+                 "exact leaves + exact cell oracle + exact point-membership checks for constraint-based leaves; set pavings: verified "
+                 "checker (pavingOk / sepOk / supOk: cell enumeration proved complete for all real points, segment argument for the "
+                 "closed leaves) run on the leaves of the real Set / SetInterval + exact refuting points",
     "level_text": "Kernel-checked: for ANY sub-contractors meeting the contract (sub-box, no point of the set lost, INACTIVE only if "
                   "nothing removed) composition / union / fix-point (any fuel, any ratio) / q-intersection / integer / identity / empty / "
                   "CtcEmpty(pdc) / exists / for-all (any covering bisection, any sampling point, any precision) / not-in / inverse meet "
                   "the contract for the named set; the separator contract is closed under pair, intersection, union, complement and "
                   "q-intersection; three-valued PdcAnd/Or/Not; all trees by induction (tree_ctc, tree_sep, tree_pdc); an implementation "
-                  "result equal to the model's is a sub-box keeping every point of the logical set (comb_accept, sep_accept).",
+                  "result equal to the model's is a sub-box keeping every point of the logical set (comb_accept, sep_accept). "
+                  "Set pavings (Props/C19set): if pavingOk accepts the printed leaves then, for ALL real points, any dimension, any "
+                  "number of leaves and any tree of set operations over exact leaves: the leaves cover the space, every point of a YES "
+                  "leaf is possibly in the set and is the end of a segment of points of the leaf certainly in it (hence in every closed "
+                  "set denoted), every point of a NO leaf is not certainly in the set and is a limit of points certainly outside "
+                  "(yes_leaf_subset, no_leaf_disjoint, leaves_cover); refutations by exact points are sound for every expression "
+                  "(refuted_yes, refuted_no); is_superset, Sep::separate (SepBoundaryCtc) and i-set consistency likewise.",
     "level_note": "Trusted: Lean kernel + Mathlib, axioms propext/Classical.choice/Quot.sound; harness, line protocol, driver glue, the "
                   "cell oracle; the correspondence is sampled. Genuine defects found on the pinned tree: qinter drops q-intersections "
                   "of measure zero (also for q=1 and q=n); CtcCompo leaks stale FIXPOINT/INACTIVE flags (CtcUnion then drops "
                   "sub-contractors); CtcForAll reports INACTIVE after contracting; CtcExist throws NoBisectableVariableException when the "
-                  "parameter box is narrower than the precision; PdcAnd/PdcOr use the set operators & and | instead of && and ||.",
+                  "parameter box is narrower than the precision; PdcAnd/PdcOr use the set operators & and | instead of && and ||. "
+                  "Set pavings (this round, C19set_proposed_fixes.diff): SetLeaf::inter(Sep) turns a MAYBE leaf into YES; "
+                  "SetBisect::is_superset combines with & (YES & MAYBE = YES, YES & NO = EMPTY_BOOL); SepFwdBwd(NumConstraint) / "
+                  "PdcFwdBwd with an equality use the equality itself as its negation; CtcUnion(System) ignores the f<0 side of "
+                  "an equality; Set::dist always crashes (property key mismatch); &= / |= throw on non-bisectable unbounded leaves.",
 }
